@@ -42,6 +42,11 @@ def gen_cases(tier, seed, ctx):
                 if v == b[pos]: continue
                 cases.append(E.Case('o%d' % len(cases), 'OPENM %s %d %02x' % (p, pos, v),
                                     dict(kind='sub-exhaustive' if exhaustive else 'sub-sampled')))
+        # the same substitutions through the advanced API with every failing step retried after zck_clear_error on the same context
+        if k < (3 if tier == 'quick' else nexh):
+            for pos in range(hl):
+                for v in (b[pos] ^ 1, b[pos] ^ 0x80):
+                    cases.append(E.Case('o%d' % len(cases), 'OPENRETRY %s %d %02x' % (p, pos, v), dict(kind='sub-retry')))
         # first body byte (outside the header): must NOT affect open
         if len(b) > hl:
             cases.append(E.Case('o%d' % len(cases), 'OPENM %s %d %02x' % (p, hl, b[hl] ^ 0xff), dict(kind='body-byte')))
@@ -66,7 +71,8 @@ def nontrivial(r):
     return r['meta'].get('kind') != 'valid'
 
 def run(tier, seed, replay=None):
-    rule = ("OPENM = zck_init_read on a valid file with ONE header byte substituted: for the sampled valid files (all hash types, flags, "
+    rule = ("OPENRETRY = the same through zck_read_lead / zck_read_header with every failing step retried after zck_clear_error on the same "
+            "context (2 values per position); OPENM = zck_init_read on a valid file with ONE header byte substituted: for the sampled valid files (all hash types, flags, "
             "dict, detached) every position in [0, header length) x all 255 other values (exhaustive; 5 files quick, 24 thorough; the "
             "remaining files x 6 values per position), the first body byte as a control, and insertions/deletions with the size field "
             "adjusted; a case is distinct by (file, position, value) and non-trivial when it is a mutation")
